@@ -18,7 +18,7 @@ echo "$LIST" | while read prop commit also; do
   D=$(mktemp -d /tmp/h2reg.XXXXXX)
   cp -r /repo/src "$D/src"
   if git -C /repo diff "$commit" "$commit^" -- src | ( cd "$D" && patch -s -p1 >/dev/null 2>&1 ); then
-    out=$(H2MON_SRC="$D/src" ./check "$prop" --tier quick 2>&1)
+    out=$(H2MON_SRC="$D/src" H2MON_OUT="$D/out" ./check "$prop" --tier quick 2>&1)
     if echo "$out" | grep -q "^VIOLATION"; then echo "$commit $prop: DETECTED $(echo "$out" | grep -A1 '^VIOLATION' | grep -m1 '^  key=' | cut -c1-140)";
     elif echo "$out" | grep -q "^INCONCLUSIVE"; then echo "$commit $prop: INCONCLUSIVE";
     else echo "$commit $prop: MISSED"; fi
